@@ -339,6 +339,8 @@ def generic_replay(pid, path):
     line = "r0 " + case
     if drv:
         print("model:", run_model(drv, [line]).get("r0"))
+        if case.split()[0] == "H":
+            print("specification machine:", run_model(drv, ["r0 S " + case.split(" ", 1)[1]]).get("r0"))
     else:
         print("model: not buildable:", out[-400:])
     build = rp.get("build", "default/debug").split("/")
@@ -373,6 +375,7 @@ class Ctx:
         self.samples = []
         self.evaluations = 0
         self.nontrivial = set()
+        self.runs = []        # (name, cases, implementation results, model driver, build) for the search
 
     def log(self, *a):
         print(f"[{self.pid} {time.time() - self.t0:6.1f}s]", *a, flush=True)
@@ -411,11 +414,36 @@ class Ctx:
             au["obligations"] = len(re.findall(r"Print Assumptions", text))
         self.audit = au
         self.log("audit: %d/%d closed" % (au["discharged"], au["obligations"]))
+        # 3b. thorough tier: re-check the compiled theorems and everything they depend on with the
+        # independent checker coqchk, and take its axiom / unsafe-feature summary
+        if ok and self.tier == "thorough" and os.environ.get("VERIF_NO_COQCHK") != "1":
+            self.coqchk(pid)
         # 4. correspondence
         self.proofs_ok = ok and not self.broken
         mod.correspondence(self)
         # 5/6. verdict
         return self.finish(mod)
+
+    def coqchk(self, pid):
+        t = time.time()
+        try:
+            r = subprocess.run(["coqchk", "-silent", "-o", "-Q", ".", "V", "V.Props." + pid], cwd=COQ,
+                               capture_output=True, text=True, timeout=int(os.environ.get("VERIF_COQCHK_TIMEOUT", "5400")))
+            out = r.stdout + r.stderr
+        except subprocess.TimeoutExpired:
+            self.extra_cov = dict(getattr(self, "extra_cov", {}), coqchk="timed out (not counted as a failure; coqc's kernel accepted the proofs)")
+            self.log("coqchk timed out")
+            return
+        summ = out[out.find("CONTEXT SUMMARY"):] if "CONTEXT SUMMARY" in out else out[-800:]
+        fields = dict(re.findall(r"\* (Axioms|Constants/Inductives relying on type-in-type|Constants/Inductives relying on unsafe \(co\)fixpoints|Inductives whose positivity is assumed):\s*(.*?)\n\s*\n", summ + "\n\n", re.S))
+        bad = {k: " ".join(v.split()) for k, v in fields.items() if v.strip() != "<none>"}
+        okc = r.returncode == 0 and len(fields) == 4 and not bad
+        self.extra_cov = dict(getattr(self, "extra_cov", {}),
+                              coqchk={"cmd": "coqchk -silent -o -Q . V V.Props.%s" % pid, "rc": r.returncode,
+                                      "summary": {k: " ".join(v.split()) for k, v in fields.items()}, "wall_s": round(time.time() - t, 1)})
+        if not okc:
+            self.broken.append("coqchk: rc=%s %s" % (r.returncode, bad or summ[-300:]))
+        self.log("coqchk ok=%s in %.0fs" % (okc, time.time() - t))
 
     # -- helpers for property modules ----------------------------------------
     def need_model(self):
@@ -455,10 +483,41 @@ class Ctx:
                 cid, _, rest = line.partition(" ")
                 self.samples.append({"case": rest[:300], "model": mres.get(cid, "")[:200], "impl": ires.get(cid, "")[:200]})
         self.stats[name + "/" + build + "/" + profile] = {"cases": len(cases), "disagreements": nfail}
+        self.runs.append((name, cases, ires, model_driver, f"{build}/{profile}"))
         self.log(f"correspondence {name} [{build}/{profile}]: {len(cases)} cases, {nfail} disagreements")
+
+    def spec_search(self):
+        """A proof obligation or the tie broke but model and implementation still agree on every
+        case: search for a concrete failing input by comparing the implementation with the
+        SPECIFICATION-only machine (Model/SpecMachine.v, independent of the generated formulas and
+        of the implementation models) on every history case that ran."""
+        n = 0
+        for name, cases, ires, drv, build in self.runs:
+            scases, orig = [], {}
+            for line in cases:
+                t = line.split(" ")
+                if len(t) > 2 and t[1] == "H":
+                    scases.append(" ".join([t[0], "S"] + t[2:]))
+                    orig[t[0]] = line.partition(" ")[2]
+            if not scases or drv is None:
+                continue
+            sres = run_model(drv, scases)
+            for cid, rest in orig.items():
+                s_, i_ = sres.get(cid, "UNSUPPORTED"), ires.get(cid, "MISSING")
+                if "UNSUPPORTED" in s_ or s_.startswith("CRASH") or "PANIC" in i_ or i_.startswith("SKIP") or i_ == "MISSING":
+                    continue
+                n += 1
+                if s_.split() != i_.split():
+                    self.failures.append({"correspondence": name + " (search: implementation vs specification machine)",
+                                          "case": rest, "model": s_, "impl": i_, "build": build,
+                                          "oracle": "Model/SpecMachine.v spec_run_case"})
+        self.log("search against the specification machine: %d cases compared, %d failing inputs" % (n, len(self.failures)))
+        self.stats["search/spec-machine"] = {"cases": n, "disagreements": len(self.failures)}
 
     def finish(self, mod):
         pid = self.pid
+        if self.broken and not self.failures:
+            self.spec_search()
         known = known_findings(pid)
         violations = 0
         rc = 0
